@@ -164,6 +164,7 @@ class World:
         self.sk = [sut(make_sketch, cfg) for _ in range(n_sketches)]
         self.true = [Counter() for _ in range(n_sketches)]  # true multiplicity per (model) key
         self.total = [0 for _ in range(n_sketches)]  # total multiplicity that reached the sketch
+        self.seen = [set() for _ in range(n_sketches)]  # distinct model keys ever passed in (any multiplicity)
         self.tmp = tempfile.mkdtemp(prefix="vf_", dir=tmp_root)
         self.nfile = 0
         self.flags = set()
@@ -175,6 +176,7 @@ class World:
     def _model_add(self, i, k, v):
         self.true[i][self.mkey(k)] += v
         self.total[i] += v
+        self.seen[i].add(self.mkey(k))
 
     def close(self):
         self.sk = []
@@ -223,6 +225,7 @@ class World:
             j = step["j"]
             before = snapshot(self.sk[j], self.kind) if j != i else None
             sut(sk.merge, self.sk[j])
+            self.seen[i] |= self.seen[j]
             if j != i:
                 if not snap_equal(before, snapshot(self.sk[j], self.kind)):
                     raise Violation(f"merge({i}<-{j}) modified the argument sketch", "merge-mutates-other")
